@@ -10,7 +10,7 @@ from .vote import is_f
 from .match import lt_true, lt_false, eq, isf
 
 
-@obligation("LOGGUARD.applied", ["C14", "C20"], floor=2, kind="who-may-write + guard with caller context",
+@obligation("LOGGUARD.applied", ["C14", "C20", "C07"], floor=2, kind="who-may-write + guard with caller context",
             why="applied must stay within [previous applied, committed] outside the documented restart window")
 def applied(cx):
     ws = [s for s in cx.prog.writes.get("RaftLog.applied", []) if s.kind == "write"]
@@ -35,6 +35,13 @@ def applied(cx):
                 flag = [l[1] for l in cx.guard_lits(c) if skip(l)][0]
                 ctor_fns = {f.key for f, _, _, _ in ctor_sites(cx, "raft::Raft")}
                 ctor_callers = [cc for cc in callers_of(cx, c.fn) if cc.fn.key in ctor_fns]
+                for cc in ctor_callers:
+                    av = call_args(cx, cc)[v[1] - 1] if v[0] == "param" else None
+                    if av is None:
+                        # the written value is the setter's parameter; the internal helper forwards its own
+                        pa = [x for x in call_args(cx, c) if x[0] == "param"]
+                        av = call_args(cx, cc)[pa[0][1] - 1] if pa else ("?",)
+                    cx.check(av[0] == "field" and av[2] == "Config.applied", cx.site_key(cc, "restart-value"), "the node restarts at exactly the applied index the application configured (found %s)" % show(av)[:100], cc)
                 cx.check(bool(ctor_callers) and all(call_args(cx, cc)[flag[1] - 1] == ("bool", True) for cc in ctor_callers), cx.site_key(c, "restart-window"),
                          "the constructor restores Config.applied through the unchecked path (applied may exceed the stored commit index right after a restart; the checked setter would be a fatal! there)", c)
                 for cc in callers_of(cx, c.fn):
